@@ -155,8 +155,12 @@ Definition impl_subset (f : io) (ks : list name) : res io :=
   let f2 := set_meta f1 (length nvl) nvl (length nvl) None (sdate f) (stime f) in
   updatemeta f2.
 
-(* inherited renameVariable: _copywith copies every variable through the overriding copyVariable
-   (-> _add2Varlist), then the new key is added, the old variable deleted, and nothing is updated *)
+(* renameVariable(s) as repaired by fixes/C10-renameVariable-varlist.patch: the inherited method runs first (_copywith
+   copies every variable through the overriding copyVariable -> _add2Varlist, the new key is added, the old variable
+   deleted); the override then renames the VAR-LIST entries in place (existing variables only, first occurrence only)
+   and calls updatemeta() *)
+Fixpoint dedup (l : list name) : list name :=
+  match l with [] => [] | x :: t => x :: filter (fun y => negb (Nat.eqb y x)) (dedup t) end.
 Definition impl_rename (f : io) (o n : name) : res io :=
   if negb (memb o (dvars f)) || memb n (dvars f) || memb n (varlist f) then Raise else    (* KeyError / not modelled *)
   match tflag f with
@@ -165,7 +169,10 @@ Definition impl_rename (f : io) (o n : name) : res io :=
       if negb (Nat.eqb s1 (vardim f)) then Raise else                    (* TFLAG is re-allocated from the VAR dimension *)
       let f1 := add2varlist f (dvars f) in
       let f2 := add2varlist (set_dvars f1 (dvars f1 ++ [n])) [n] in
-      Ok (set_dvars f2 (filter (fun k => negb (Nat.eqb k o)) (dvars f2)))
+      let f3 := set_dvars f2 (filter (fun k => negb (Nat.eqb k o)) (dvars f2)) in
+      let vl := dedup (filter (fun k => memb k (dvars f3))
+                              (map (fun k => if Nat.eqb k o then n else k) (varlist f3))) in
+      updatemeta (set_meta f3 (nvars f3) vl (vardim f3) (tflag f3) (sdate f3) (stime f3))
   end.
 
 (* ioapi_base.sliceDimensions for one dimension *)
@@ -203,7 +210,7 @@ Definition impl_apply (f : io) (d : dimk) (g : rfun) : res io :=
       let f1 := set_len f d m in
       do f2 <- (match d with
                 | DT => if Nat.eqb (length rows) n then Ok (set_rows f1 (reduce_rows g rows)) else Raise
-                | DL => if Nat.eqb (nvgl f) (n + 1) then Ok (set_vgl f1 (2 * m)) else Raise   (* append(b[:,0], b[:,1]) *)
+                | DL => if Nat.eqb (nvgl f) (n + 1) then Ok (set_vgl f1 (m + 1)) else Raise   (* append(b[:,0], b[-1,1]): fixes/C10-apply-vglvls.patch *)
                 | _ => Ok f1
                 end);
       updatemeta f2
@@ -247,7 +254,7 @@ Definition impl_interp (f : io) (m : nat) : res io :=
   | None => Raise
   | Some _ =>
       if Nat.eqb m 0 || Nat.eqb (nl f) 0 || negb (Nat.eqb (nvgl f) (nl f + 1)) then Raise else
-      do g <- updatemeta (set_vgl (set_len f DL m) (2 * m));
+      do g <- updatemeta (set_vgl (set_len f DL m) (m + 1));
       let g' := set_vgl g (m + 1) in
       updatemeta (IO (nt g') (nl g') (nr g') (nc g') (vardim g') (ts_unl g') (dvars g') (tflag g') (nvars g') (varlist g')
                      m (a_nr g') (a_nc g') (nvgl g') (sdate g') (stime g') (tstep g'))
@@ -269,22 +276,21 @@ Fixpoint irun (f : io) (ops : list iop) : res io :=
   match ops with [] => Ok f | o :: t => do f' <- istep f o; irun f' t end.
 
 (* ---- the sub-domain on which coherence is PROVED; the complement = known-defect regions --------------- *)
-(* 0 = safe; 1 = renameVariable; 2 = a reducer along TSTEP (TFLAG is reduced like data, SDATE/STIME are not touched);
-   3 = a function along LAY leaving more than one layer (VGLVLS gets 2n entries); 4 = subsetVariables selecting nothing *)
+(* 0 = safe; 1 = a reducer along TSTEP over more than one step (TFLAG is reduced like data, SDATE/STIME are not touched);
+   2 = subsetVariables selecting nothing; 3 = a standard variable missing from VAR-LIST (never generated: the
+   overriding copyVariable would append it).  renameVariable and functions along LAY are repaired
+   (fixes/C10-renameVariable-varlist.patch, fixes/C10-apply-vglvls.patch) and need no region any more. *)
 Definition iop_region (f : io) (o : iop) : nat :=
   match o with
-  | IRename _ _ => 1
-  | IApply DT g => match g with FHalf => 0 | _ => if Nat.eqb (nt f) 1 then 0 else 2 end
-  | IApply DL g => if Nat.eqb (rfun_len g (nl f)) 1 then 0 else 3
-  | ISubset ks => match filter (fun k => memb k ks) (listed_existing f) with [] => 4 | _ => 0 end
-  (* never generated: an unlisted standard variable (the overriding copyVariable would append it to VAR-LIST) *)
-  | IEval _ a false => if memb a (listed_existing f) then 0 else 5
-  | IStack _ _ => if forallb (fun k => memb k (varlist f)) (dvars f) then 0 else 5
+  | IApply DT g => match g with FHalf => 0 | _ => if Nat.eqb (nt f) 1 then 0 else 1 end
+  | ISubset ks => match filter (fun k => memb k ks) (listed_existing f) with [] => 2 | _ => 0 end
+  | IEval _ a false => if memb a (listed_existing f) then 0 else 3
+  | IStack _ _ => if forallb (fun k => memb k (varlist f)) (dvars f) then 0 else 3
   | _ => 0
   end.
 (* operations for which preservation of coherence is PROVED (the others: correspondence only) *)
 Definition proved_op (o : iop) : bool :=
-  match o with ICopy | ISubset _ | ISlice _ _ _ _ | IApply _ _ | IStack _ _ => true | _ => false end.
+  match o with ICopy | ISubset _ | IRename _ _ | ISlice _ _ _ _ | IApply _ _ | IStack _ _ => true | _ => false end.
 Fixpoint irun_region (f : io) (ops : list iop) : nat :=
   match ops with
   | [] => 0%nat
